@@ -39,7 +39,7 @@ TABLE_POOL = [
 ]
 COLS = ["x", "y", "z", "id"]
 ALIASES = ["al", "foo", "x", "k1", "sq9"]
-STRS = ["v", "o'k", "a\\b", "", "100%", "*", "x y", "naïve"]
+STRS = ["v", "o'k", "a\\b", "", "100%", "*", "x y", "naïve", "dir\\"]
 QCLS = ["Query", "MySQLQuery", "PostgreSQLQuery", "SQLLiteQuery", "MSSQLQuery", "OracleQuery"]
 FN1 = ["fn.Sum", "fn.Avg", "fn.Min", "fn.Max", "fn.Count", "fn.Abs", "fn.Upper", "fn.Lower", "fn.Length",
        "fn.Floor", "fn.Sqrt", "fn.First", "fn.Last", "fn.Std", "fn.StdDev", "fn.Ascii", "fn.Reverse", "fn.Trim",
@@ -218,13 +218,18 @@ class Gen:
             return self.var(self.ch(c))
         return None
 
-    def query_ref(self, need_alias=False, setop_ok=True, same_cls=None):
+    def query_ref(self, need_alias=False, setop_ok=True, same_cls=None, select_only=False):
         Q = self.L.queries
         def ok(v, i):
             kd = self.kind(v)
             if kd == "qb":
                 if self.is_mutable(v):
                     return False
+                if self.k.get("select_subqueries_only") or select_only:
+                    d = lib.state(v)
+                    if d.get("_insert_table") is not None or d.get("_update_table") is not None or d.get("_delete_from") \
+                            or not d.get("_selects"):
+                        return False  # only SELECT statements are meaningful as sub-queries
                 if need_alias and not self.k["autoalias"] and self.alias_of(v) is None:
                     return False
                 return True
@@ -272,7 +277,7 @@ class Gen:
             return {"t": "const", "name": "NULL"}
         c = self.wch([("arith", 5), ("fn1", 3), ("fn2", 1.5), ("neg", 0.7), ("case", 1), ("analytic", 1),
                       ("cast", 0.6), ("powmod", 0.5), ("tuple", 0.5), ("array", 0.4), ("json", 0.5),
-                      ("interval", 0.4), ("subq", 0.6), ("extract", 0.3), ("leaf", 2), ("crit", 0.5),
+                      ("interval", 0.4), ("subq", 2.4 if self.k["autoalias"] else 0.6), ("extract", 0.3), ("leaf", 2), ("crit", 0.5),
                       ("aliased", 0.8), ("bracket", 0.2), ("attz", 0.15), ("custom", 0.3), ("now", 0.2),
                       ("rare", 0.7)])
         if c == "rare":
@@ -332,7 +337,8 @@ class Gen:
             return {"t": "new", "c": "Array", "a": [self.g_pyval(simple=True) for _ in range(self.rng.randint(0, 3))]}
         if c == "json":
             j = {"t": "new", "c": "JSON", "a": [self.ch([{"t": "v", "k": "dict", "v": {"a": 1, "b": "t"}},
-                                                        [1, "two", 3], "plain"])]}
+                                                        [1, "two", 3], "plain", "it's",
+                                                        {"t": "v", "k": "dict", "v": {"q": "o'k", "n": None}}])]}
             if self.p(0.5):
                 m = self.ch(["get_json_value", "get_text_value", "has_key", "contains", "contained_by",
                              "get_path_json_value", "has_keys", "has_any_keys"])
@@ -350,7 +356,7 @@ class Gen:
             return {"t": "bin", "op": self.ch(["add", "sub"]), "l": self.g_field(scope, alias_ok=False), "r": iv}
         if c == "subq":
             q = self.query_ref(setop_ok=False)
-            if q is None or self.p(0.5):
+            if q is None or self.p(0.2 if self.k["autoalias"] else 0.5):
                 q = self.g_query(d - 1, aliased=self.p(0.3))
             return q
         if c == "extract":
@@ -1290,12 +1296,16 @@ class Gen:
         # never a list/tuple/query as a positional value: insert(x, ...) with a sequence first treats EVERY argument
         # as a row and iterates it (iterating a Selectable never ends: __getitem__ answers every index)
         row = []
-        for _ in range(self.rng.randint(1, 3)):
+        for k in range(self.rng.randint(1, 3)):
             v = self.g_pyval() if self.p(0.75) else self.g_expr(0, scope)
             if isinstance(v, list) or (isinstance(v, dict) and v.get("t") == "v" and v.get("k") in ("list", "tuple")):
                 v = self.g_pyval(simple=True)
                 if isinstance(v, list):
                     v = 1
+            if k >= 1 and self.p(0.5 if self.k["autoalias"] else 0.06):
+                # a scalar sub-query as a value (never first: see above), preferably one of the heap
+                q = self.query_ref(setop_ok=False, select_only=True)
+                v = q if (q is not None and self.p(0.8)) else self.g_query(0, nsel=1)
             row.append(v)
         return row
 
